@@ -138,6 +138,12 @@ func c11ObserveMulti(paths []string, srcs [][]byte, withResolver bool) ([]obj, s
 		}
 		afs, dfs = append(afs, af), append(dfs, df)
 	}
+	// the decorator's maps are judged after decoration (of all files), before any restore: restoring
+	// with import management rewrites the import declarations of the dst tree it is given
+	decRecs := make([]obj, len(dfs))
+	for i := range dfs {
+		decRecs[i] = mapsRecord("decorator", afs[i], dfs[i], d.Map)
+	}
 	var rafs []*ast.File
 	for _, df := range dfs {
 		var raf *ast.File
@@ -152,7 +158,7 @@ func c11ObserveMulti(paths []string, srcs [][]byte, withResolver bool) ([]obj, s
 	}
 	var out []obj
 	for i := range dfs {
-		out = append(out, mapsRecord("decorator", afs[i], dfs[i], d.Map), mapsRecord("restorer", rafs[i], dfs[i], r.Map))
+		out = append(out, decRecs[i], mapsRecord("restorer", rafs[i], dfs[i], r.Map))
 	}
 	return out, ""
 }
@@ -249,6 +255,37 @@ func init() {
 			b, _ := json.Marshal(o)
 			validateTraces(c, "MapsTrace", mapsTraceCfg, []traceItem{{Key: "replay", Trace: append(b, '\n'), Events: 1}}, 10, false, func(it traceItem, res *TLCResult) {
 				out += fmt.Sprintf("law %s fails for the %s's maps; ", res.Violated, o["side"])
+			})
+		}
+		return out
+	}
+}
+
+func init() {
+	replayers["c11multi"] = func(raw json.RawMessage) string {
+		var r struct {
+			Paths    []string `json:"paths"`
+			Resolver bool     `json:"resolver"`
+		}
+		json.Unmarshal(raw, &r)
+		var srcs [][]byte
+		for _, p := range r.Paths {
+			b, err := os.ReadFile(p)
+			if err != nil {
+				return "harness: " + err.Error()
+			}
+			srcs = append(srcs, b)
+		}
+		obs, msg := c11ObserveMulti(r.Paths, srcs, r.Resolver)
+		if msg != "" {
+			return msg
+		}
+		c := newCtx("C11", "quick", 1, "model_checking")
+		out := ""
+		for i, o := range obs {
+			b, _ := json.Marshal(o)
+			validateTraces(c, "MapsTrace", mapsTraceCfg, []traceItem{{Key: "replay", Trace: append(b, '\n'), Events: 1}}, 10, false, func(it traceItem, res *TLCResult) {
+				out += fmt.Sprintf("law %s fails for the %s's maps of file %d (%s): %s; ", res.Violated, o["side"], i/2, r.Paths[i/2], truncate(rejectText(res), 600))
 			})
 		}
 		return out
